@@ -188,6 +188,12 @@ template <size_t L> struct X {
    }
    ~X() { for (auto* c : CS) delete c; }
 
+   // iterator offsets 0..len: all of them, or (thinned domains, large capacities) only the neighbourhood of both ends and the middle
+   std::vector<size_t> offsets(size_t upto) const {
+      std::vector<size_t> v;
+      if (!thin || upto <= 12) { for (size_t k = 0; k <= upto; ++k) v.push_back(k); return v; }
+      std::set<size_t> s{0, 1, 2, upto / 2, upto - 2, upto - 1, upto}; v.assign(s.begin(), s.end()); return v;
+   }
    // ---------------------------------------------------------------- transition protocol
    void A(const char* op, std::initializer_list<std::pair<char, size_t>> l, const std::string* src = nullptr, char ch = 0) {
       opname = op; nargs = 0; asrc = src; ach = ch;
@@ -263,7 +269,7 @@ template <size_t L> struct X {
       State s(reinterpret_cast<const char*>(&fs), SZ);
       if (s != cur) ++changed;
       if (fs.mLength == L) ++hit_capacity;
-      if (index.find(s) == index.end()) { index.emplace(s, states.size()); states.push_back(s); }
+      if (!seeds_only && index.find(s) == index.end()) { index.emplace(s, states.size()); states.push_back(s); }      // seeds-only (capacity 255/256): successors are checked, not stored
    }
    // after a mutator. indom: the std::string counterpart is defined; refop applies it to the reference
    template <class R> void end_mut(bool indom, R&& refop) {
@@ -485,9 +491,11 @@ template <size_t L> struct X {
       for (size_t i : P) for (size_t c : P) { A("erase(index,count)", {{'p', i}, {'c', c}}); MUT(i <= len, fs.erase(i, c), r.erase(i, c)); }
       A("erase()", {}); MUT(true, fs.erase(), r.erase());
       for (size_t i : P) { A("erase(index)", {{'p', i}}); MUT(i <= len, fs.erase(i), r.erase(i)); }
-      for (size_t k = 0; k < len; ++k) {
+      for (size_t k : offsets(len)) {
+         if (k >= len) continue;
          A("erase(const_iterator)", {{'p', k}}); MUT(true, { typename FS::const_iterator it(&fs, k); fs.erase(it); }, r.erase(r.begin() + k));
-         for (size_t k2 = k; k2 <= len; ++k2) {
+         for (size_t k2 : offsets(len)) {
+            if (k2 < k) continue;
             A("erase(first,last)", {{'p', k}, {'c', k2 - k}});
             MUT(true, { typename FS::const_iterator a(&fs, k); typename FS::const_iterator b(&fs, k2); fs.erase(a, b); }, r.erase(r.begin() + k, r.begin() + k2));
          }
@@ -543,7 +551,8 @@ template <size_t L> struct X {
    // 5: replace with FixedString<S> sources and iterator forms
    void fam5() {
       fam5_fs<S1>(); if (S2 != S1) fam5_fs<S2>(); if (S3 != S2) fam5_fs<S3>();
-      for (size_t k = 0; k <= len; ++k) for (size_t k2 = k; k2 <= len; ++k2) {
+      for (size_t k : offsets(len)) for (size_t k2 : offsets(len)) {
+         if (k2 < k) continue;
          // iterator ranges [begin()+k, begin()+k2): first==end() or empty ranges are documented no-ops of this class (not compared, std::string would insert)
          bool cmp = (k < len) && (k2 > k);
          for (size_t si = 0; si < SRC.size(); ++si) {
